@@ -200,7 +200,10 @@ pub fn init_symbol(interp: &mut Interpreter) {
     interp
         .symbol_prototype
         .borrow_mut()
-        .set_property(constructor_key, JsValue::Object(symbol_fn.clone()));
+        .define_property(
+            constructor_key,
+            crate::value::Property::with_attributes(JsValue::Object(symbol_fn.clone()), true, false, true),
+        );
 
     // Register globally
     let symbol_key = PropertyKey::String(interp.intern("Symbol"));
